@@ -22,7 +22,7 @@ def cdeep(t):
 def run(chk, tier):
     P = Prog("default")
     chk.configs.add("default")
-    for r in (r_zones, r_year_rule, r_reader_widths, r_writer, r_weekday, r_absint, r_flow, r_own_ranges):
+    for r in (r_zones, r_year_rule, r_reader_widths, r_writer, r_weekday, r_absint, r_flow, r_own_ranges, r_comments):
         chk.guarded(r, P, tier)
     chk.assume("optional-part acceptance, comments, white-space runs and the values returned (the round trip) are NOT decided")
     return {
@@ -228,3 +228,15 @@ def r_own_ranges(chk, P, tier):
         missing = allowed.get(fn, set()) - got
         chk.expect(not extra and not missing, fn.split("::")[-1], "%s rejects scanned values on its own: %s (allowed: %s)%s" % (fn, sorted(extra), sorted(allowed.get(fn, set())),
                    "; expected rejection missing: %s" % sorted(missing) if missing else ""), loc=P.loc(fn))
+
+
+def r_comments(chk, P, tier):
+    """trailing comments / folding white space are tried unconditionally: every accepting path of parse_rfc2822 has called scan::comment_2822 (which does its
+    own white-space skipping) at least once after the zone"""
+    chk.rule("DOM.comments", "every Ok path of parse_rfc2822 passes through scan::comment_2822 (no precondition on what follows the zone)", floor=1)
+    fn = "format::parse::parse_rfc2822"
+    oks = [p_ for p_ in Sym(P, fn).paths(max_paths=6000) if p_.end[0] in ("return", "loop") and (p_.end[0] == "loop" or result_variant(p_.ret)[0] == "Ok")]
+    if not oks:
+        raise AnchorLost("parse_rfc2822: no accepting path")
+    bad = [p_ for p_ in oks if not any(isinstance(c[1], str) and c[1].endswith("scan::comment_2822") for c in p_.calls)]
+    chk.expect(not bad, "comment scan", "parse_rfc2822 accepts on %d of %d paths without trying scan::comment_2822 (a comment after other white space would be rejected as trailing text)" % (len(bad), len(oks)), loc=P.loc(fn))
